@@ -27,14 +27,63 @@ fn main() {
             }
         }
         Some("run") => {
-            // `run <index>:<name>...`: programs are addressed by name; the index is only echoed
+            // `run <index>:<name>...`: programs are addressed by name; the index is only echoed.
+            // (raw writes: the formatting machinery is slow under Miri)
+            let out = std::io::stdout();
             for a in &args[2..] {
                 let (idx, name) = a.split_once(':').unwrap_or(("0", a.as_str()));
                 let Some(p) = vprog::find(name) else {
                     eprintln!("unknown program {name}");
                     std::process::exit(2);
                 };
-                one(idx.parse().unwrap_or(0), &p);
+                {
+                    let mut o = out.lock();
+                    let _ = o.write_all(b"BEGIN ");
+                    let _ = o.write_all(idx.as_bytes());
+                    let _ = o.write_all(b" ");
+                    let _ = o.write_all(name.as_bytes());
+                    let _ = o.write_all(b"\n");
+                    let _ = o.flush();
+                }
+                let r = run(&p);
+                let mut o = out.lock();
+                let _ = o.write_all(b"END ");
+                let _ = o.write_all(idx.as_bytes());
+                match r {
+                    Outcome::Returned(_) => {
+                        let _ = o.write_all(b" returned\n");
+                    }
+                    Outcome::Panicked(m) => {
+                        let _ = o.write_all(b" panicked ");
+                        let _ = o.write_all(m.lines().next().unwrap_or("").as_bytes());
+                        let _ = o.write_all(b"\n");
+                    }
+                }
+                let _ = o.flush();
+            }
+        }
+        Some("bench") => {
+            // micro-benchmark of the harness overhead under Miri (development aid)
+            let what = args[2].as_str();
+            let name = "order_size/L/cycle5/in0/in0/cb0/t0";
+            for _ in 0..200 {
+                match what {
+                    "find" => {
+                        let _ = std::hint::black_box(vprog::find(name));
+                    }
+                    "dg" => {
+                        let _ = std::hint::black_box(vprog::Shape::Cycle5.dg());
+                    }
+                    "run" => {
+                        let p = vprog::find(name).unwrap();
+                        let _ = std::hint::black_box(run(&p));
+                    }
+                    _ => {
+                        let mut o = std::io::stdout().lock();
+                        let _ = o.write_all(b"BEGIN 1 x\n");
+                        let _ = o.flush();
+                    }
+                }
             }
         }
         Some("judge") => {
